@@ -190,6 +190,7 @@ def checkSweepFailover (j : Json) : Except String Verdict := do
 
 def check (pid : String) (j : Json) : Except String Verdict := do
   if jStrD j "op" "" = "sweep-failover" then return ← checkSweepFailover j
+  if jStrD j "op" "" = "evict-during-update" then return ← checkEvictDuringUpdate pid j
   let cj ← j.getObjVal? "cfg"
   let cfg : Cfg := { sendAborts := Generated.sendAborts, metaInitNow := Generated.metaInitNow,
                      ndsRequired := jBoolD cj "nds" true, ns := (jStrD cj "ns" "default").toList, dom := (jStrD cj "dom" "cluster.local").toList }
